@@ -66,6 +66,31 @@ def edited_items(base_opts=None, names=None):
     return out
 
 
+def resumed_edit_items(names, ks=(1, 2, 3), base_opts=None):
+    """items whose observed run continues (state and logs kept) a run stopped at step k, with an in-place edit of the model made at the stop;
+    only for edits whose effect begins at or after step k (the oracle reads the edited spec for the whole run)"""
+    from . import edits
+
+    out = []
+    for before, after, name in edits.edit_cases():
+        if name not in names:
+            continue
+        for k in ks:
+            o = dict(base_opts or {"rule": "TSLACK", "max_time": 30})
+            o.update(build_from=before, edit=name, resume_from=k)
+            out.append((after, o))
+    return out
+
+
+def restarted_items(items, ks=(1, 2, 3), flags=(True, False)):
+    """items whose observed run starts again (states reset, logs kept by default) on a project that was stopped at step k"""
+    out = []
+    for sp, o in items:
+        for k in ks:
+            out.append((sp, dict(o, resume_from=k, restart_flags=list(flags), max_time=o.get("max_time", 30) + k)))
+    return out
+
+
 def replay(v, monitors):
     """Re-run the single execution of a violation record without the explorer."""
     ex = runner.run(v["spec"], dict(v["opts"]))
